@@ -509,6 +509,76 @@ def check_reader_totality(ctx, P, rule="E9.reader-total"):
     ctx.floor(rule, "(hand-written tagged reader, tag) pairs", n, 5)
 
 
+def _reads_content(t, pname):
+    """Does the term use the input bytes themselves (not just their length)?"""
+    def rec(x):
+        if x.op == "call" and B.cname(x) in ("slice::<impl [T]>::len", "slice::<impl [T]>::is_empty", "Vec::<T, A>::len", "Vec::<T, A>::is_empty") and len(x.a[1]) == 1:
+            y = B.peel(x.a[1][0])
+            if y.op == "param":
+                return False
+        if x.op == "len":
+            y = B.peel(x.a[0])
+            if y.op == "param":
+                return False
+        if x.op == "param":
+            return x.a[1] == pname
+        for y in x.a:
+            if isinstance(y, T) and rec(y):
+                return True
+            if isinstance(y, tuple):
+                for z in y:
+                    if isinstance(z, T) and rec(z):
+                        return True
+        return False
+
+    return rec(t)
+
+
+def check_reader_rejections(ctx, P, rule="E4.reader-rejects", only=None, floor=4):
+    """Own rejections of the byte readers.  A reader refuses input (a) by length - the input's length compared with
+    something that does not depend on the input's content - or (b) because a decoder it called said no (the `?` / ok_or
+    / map_err exits, the None arm of a checked conversion); tag readers in addition dispatch on the tag byte (their
+    totality is a rule of its own).  Any other explicit Err exit - one guarded by a comparison or bit test over the
+    content of the input, or over values decoded from it - refuses encodings the writer produces."""
+    from . import guardrules as R
+
+    ws, rs = byte_codec_fns(P)
+    n = 0
+    for ty, f in sorted(rs.items()):
+        if only is not None and ty not in only:
+            continue
+        ev = evaluate(f)
+        pname = f.locals[1].get("name") or "value"
+        for b in R.err_blocks(f):
+            n += 1
+            lits = G.path_literals(ev, b, P, checks_only=True)
+            bad = []
+            for atom, pol in lits:
+                if atom[0] != "atom":
+                    continue
+                k = atom[1]
+                if k in ("switch", "switch_not"):
+                    d = atom[2]
+                    inner = d.a[0] if d.op == "discr" else d
+                    inner = B.peel(inner)
+                    # the verdict of a call (Option / Result / CtOption of a decoder) or a tag dispatch
+                    if inner.op in ("call", "mutcall") or d.op == "discr":
+                        continue
+                    if _reads_content(d, pname):
+                        # raw byte switched on: a tag
+                        continue
+                    continue
+                terms = [x for x in atom[2:] if isinstance(x, T)]
+                if k == "cmp":
+                    terms = [atom[3], atom[4]]
+                if k in ("is_some", "is_identity", "is_zero"):
+                    continue
+                if any(_reads_content(x, pname) for x in terms):
+                    bad.append("%s%s" % ("" if pol else "!", G.show_f(atom, 4)[:160]))
+            ctx.ob(rule, "%s/err" % f.key, not bad, "explicit rejection in %s is by length or by a decoder's verdict%s" % (f.key, "" if not bad else "; it tests the CONTENT of the input: " + "; ".join(bad[:2])), where=where(f, b))
+    ctx.floor(rule, "explicit rejections of byte readers", n, floor)
+
+
 def check_serialize_total(ctx, P, rule="E9.serialize-total"):
     """The compact serde form is positional (serde_bare): a struct serializer must write every field on every path.
     In each Serialize impl that uses SerializeStruct / SerializeTuple*, no field is skipped (`skip_field`, i.e.
